@@ -46,6 +46,7 @@ unsigned long vf_stamp(void);              // global logical time stamp (ordered
 unsigned long vf_steps(void);
 void vf_log(const char* fmt, ...) __attribute__((format(printf,1,2)));    // only printed in verbose replay
 int  vf_nblocks(void);                     // how often the calling thread went to sleep (futex/mutex/once) so far
+void vf_on_stuck(const char* (*explain)(void));  // called (hooks off) when the execution ends as deadlock/hang/livelock; a non-null result is appended to the message in [..]
 void vf_liveness(int on);                  // a step-horizon hit inside this region is a hang (violation), not inconclusive
 
 // ---- happens-before oracle on harness payload (active with -hb)
